@@ -191,13 +191,19 @@ CHECKS = {
     },
     'C11': {
         'text': "Theorems (Lean) over separate models of the three expansion loops (translate, compile_pattern, Glob._iter_patterns) with "
-                "bracex/WcSplit/tilde/compiler as parameters under a stated contract: more than L distinct pieces (L>0) raises "
-                "PatternLimitException, total weight <= L does not, at most L+1 items are drawn from the expansion generator, limit=0 "
-                "disables; default limit = 1000 for every public signature (generated from inspect.signature; WcMatch's was repaired by "
-                "a fix: commit). Tie K4: every entry point x L in {1,2,3,5,32,33,1000,1001} x boundary expansion counts, with bracex.iexpand "
-                "wrapped to count pulled items.",
-        'note': TB + "PARTIAL: with exclude= the full statements are false on this tree (open known findings KF-D11 `limit -= len(negative)`, "
-                "KF-D22 Glob re-initialises total for the exclusion list); the theorems carry the hypothesis exclude = none or |excl| < L and the witnesses are decide+kernel theorems.",
+                "bracex/WcSplit/tilde/compiler as parameters under a stated contract, for every exclude= (the exclusion and the inclusion "
+                "patterns share one limit): more than L distinct pieces, exclusions included (L>0) raises PatternLimitException, total "
+                "weight <= L does not and gives the result of limit 0, at most L+1 items are drawn from the expansion generator per call "
+                "(Glob: the whole call; translate/compile_pattern: + the duplicate exclusion pieces, never more than 2L+1), every bracex "
+                "call gets a budget in 1..L, limit=0 disables; default limit = 1000 for every public signature (generated from "
+                "inspect.signature; WcMatch's was repaired by a fix: commit). Tie K4: every entry point x L in {1,2,3,5,32,33,1000,1001} "
+                "x boundary expansion counts on both lists, limit 0 and negative limits with exclude= and several brace patterns, with "
+                "bracex.iexpand wrapped to count pulled items and record its (string, limit) arguments.",
+        'note': TB + "FULL since the repairs of D11 (`limit -= len(negative)` in translate/compile_pattern: budget 0 = unlimited, negative for "
+                "limit=0) and C11-D22 (Glob re-initialised total for the exclusion list) by fix: commits, mirrored in the model; the former "
+                "_partial theorems are corollaries, D11_*_fixed_witness / D22_fixed_witness are decide+kernel theorems and the check replays "
+                "the old witnesses through every entry point (a reproduction is a VIOLATION; nothing is attributed). Negative limits are "
+                "outside the property (limit 0 disables): after the first pattern the bracex budget is clamped to 1 (negative_limit_witness, tied by K4).",
         'technique': 'Lean 4 arithmetic invariants of the expansion loops + generated signature defaults + boundary-grid correspondence',
     },
     'C13': {
